@@ -32,7 +32,8 @@ type Prog struct {
 	byName  map[string]*ssa.Function
 	Config  LoadConfig
 
-	cg *CallGraph
+	cg  *CallGraph
+	own *Own
 }
 
 type LoadConfig struct {
